@@ -1,5 +1,4 @@
-import NessaiVerif.Proofs.ResampleCdf
-import Mathlib.Analysis.SpecialFunctions.Log.Basic
+import NessaiVerif.Proofs.ResampleLog
 /-
 C16 — posterior resampling follows the posterior weights.
 Property theorems only (helper lemmas live in Proofs/Resample*.lean).
@@ -7,6 +6,9 @@ Property theorems only (helper lemmas live in Proofs/Resample*.lean).
 Weights are in the linear domain (`w = exp(log_w)`, `-inf ↦ 0`); `u` are the uniform
 draws handed to the code by the random number generator.  Everything generic is proved
 for an arbitrary linearly ordered field `K` (so for ℚ, which the driver executes, and ℝ).
+The first section proves, for whole vectors of extended log-values over ℝ (entries `-inf`,
+`np.max`, `logsumexp`, draws `u = 0`, constant shifts), that the log-space programs of the code
+compute exactly what the linear-domain model computes; float rounding is outside all theorems.
 -/
 set_option linter.unusedSectionVars false
 
@@ -15,32 +17,121 @@ open NessaiVerif.Np NessaiVerif.Resample
 
 variable {K : Type} [Field K] [LinearOrder K] [IsStrictOrderedRing K] {α : Type}
 
-/-! ## the linear-domain model is the log-space code -/
+/-! ## the linear-domain model is the log-space code
 
-/-- The acceptance test of the code, `log_w - max(log_w) > log(u)`, is `u < w / w_max`
-(positive `u`, `w`; for `u = 0` the code has `log u = -inf`, for `w = 0` it has `log w = -inf`:
-both limits agree with the strict linear inequality, see `rejection_zero_never` and the tie). -/
-theorem log_space_accept_iff (u w wmax : ℝ) (hu : 0 < u) (hw : 0 < w) (hm : 0 < wmax) :
-    Real.log w - Real.log wmax > Real.log u ↔ u < w / wmax := by
-  show Real.log u < Real.log w - Real.log wmax ↔ _
-  rw [← Real.log_div hw.ne' hm.ne', Real.log_lt_log_iff hu (div_pos hw hm)]
+The code's programs are written out over log-values in Proofs/ResampleLog.lean (`LogVal = Option ℝ`,
+`none` = the float `-inf`; IEEE conventions made explicit: `-inf - m = -inf`, `-inf > -inf` is False,
+an all-`-inf` vector gives NaN differences whose comparisons are all False; `logsumexp` is `log Σ exp`).
+The theorems below are list-level: whole weight vectors, `np.max`, `-inf` entries, draws `u = 0`. -/
 
-example : Real.log 1 - Real.log 2 > Real.log (1 / 4) ↔ (1 / 4 : ℝ) < 1 / 2 :=
-  log_space_accept_iff _ _ _ (by norm_num) (by norm_num) (by norm_num)
+/-- One acceptance test of the code over extended log-values: `log_w[i] - max > log(u)` holds iff
+`u < exp(log_w[i]) / exp(max)`, for a weight that may be `-inf` (never accepted), a draw that may be 0
+(accepted iff the weight is non-zero) and a maximum that may be `-inf` (NaN difference: never accepted;
+the linear side divides by zero, which is 0 in the model). -/
+theorem log_space_accept_iff (M a : LogVal) (u : ℝ) (hu : 0 ≤ u) :
+    keepLog M a (logE u) ↔ u < expE a / expE M := by
+  rw [← keep_iff_keepLog M a u hu, keep_iff]
 
-/-- `np.exp(log_w - logsumexp(log_w))` is `w / Σw`. -/
-theorem log_space_probability (w S : ℝ) (hw : 0 < w) (hS : 0 < S) :
-    Real.exp (Real.log w - Real.log S) = w / S := by
-  rw [Real.exp_sub, Real.exp_log hw, Real.exp_log hS]
+example : ¬ keepLog (some 0) none (logE 0) := by
+  rw [log_space_accept_iff (some 0) none 0 le_rfl]
+  simp [expE]
 
-example : Real.exp (Real.log 1 - Real.log 3) = (1 : ℝ) / 3 :=
-  log_space_probability 1 3 (by norm_num) (by norm_num)
+example : keepLog (some 1) (some 0) (logE 0) :=
+  (log_space_accept_iff (some 1) (some 0) 0 le_rfl).mpr (by simp only [expE]; positivity)
 
-/-- Shifting a log-weight by a constant `a` multiplies the weight by the positive constant `exp a`. -/
-theorem log_shift_is_scale (lw a : ℝ) : Real.exp (lw + a) = Real.exp a * Real.exp lw ∧ 0 < Real.exp a := by
-  exact ⟨by rw [Real.exp_add, mul_comm], Real.exp_pos a⟩
+/-- One entry of `np.exp(log_w - logsumexp(log_w))` over extended log-values: `exp(a - log S) = exp(a) / S`,
+also for `a = -inf` (probability 0). -/
+theorem log_space_probability (a : LogVal) (S : ℝ) (hS : 0 < S) :
+    expE (a.map (fun x => x - Real.log S)) = expE a / S :=
+  expE_sub_log a hS
 
-example : Real.exp (0 + 1) = Real.exp 1 * Real.exp 0 ∧ 0 < Real.exp 1 := log_shift_is_scale 0 1
+example : expE ((none : LogVal).map (fun x => x - Real.log 3)) = expE none / 3 :=
+  log_space_probability none 3 (by norm_num)
+
+/-- Rejection sampling as written in the code — `np.where(log_w - np.max(log_w) > np.log(u))[0]` on a
+vector of log-weights that may contain `-inf`, with draws `u ≥ 0` that may be 0 — returns exactly the
+indices of the linear-domain model run on the weights `exp(log_w)` (`exp(-inf) = 0`). -/
+theorem rejection_log_space (lw : List LogVal) (us : List ℝ) (hu : ∀ u ∈ us, 0 ≤ u) :
+    rejLog lw us = rejectionIndices (lw.map expE) us := by
+  unfold rejLog rejectionIndices
+  rw [lmax_map_expE]
+  exact rejLogGo_eq (maxE lw) 0 lw us hu
+
+example : rejLog [some 0, none, some (-1)] [1 / 2, 0, 0] =
+    rejectionIndices ([some 0, none, some (-1)].map expE) [1 / 2, 0, 0] :=
+  rejection_log_space _ _ (by intro u hu; simp at hu; rcases hu with rfl | rfl <;> norm_num)
+
+/-- The guard `0 ≤ u` is needed: `np.log` of a negative number is NaN (never accepted), while the
+linear test would accept it against a positive weight.  Here `logE (-1) = some (log 1) = some 0`. -/
+theorem rejection_log_space_fails_without :
+    rejLog [some 0] [-1] ≠ rejectionIndices ([some (0 : ℝ)].map expE) [-1] := by
+  have h1 : rejLog [some 0] [-1] = [] := by
+    have hk : ¬ keepLog (some 0) (some 0) (logE (-1)) := by
+      simp [keepLog, logE, gtE]
+    simp only [rejLog, maxE, max2E, List.map_cons, List.map_nil, rejLogGo, if_neg hk]
+  have h2 : rejectionIndices ([some (0 : ℝ)].map expE) [-1] = [0] := by
+    have hk : keep (lmax [expE (some 0)]) (expE (some 0)) (-1) = true := by
+      rw [keep_iff]
+      simp [expE, lmax_cons]
+    simp only [rejectionIndices, List.map_cons, List.map_nil, rejGo, hk, if_true]
+  rw [h1, h2]
+  simp
+
+/-- The `p=` argument handed to `np.random.choice`, `np.exp(log_w - logsumexp(log_w))`, is the model's
+`w / Σw` for the weights `exp(log_w)` (entries `-inf` give probability 0), whenever some weight is non-zero. -/
+theorem probabilities_log_space (lw : List LogVal) (hS : 0 < lsum (lw.map expE)) :
+    probsLog lw = probs (lw.map expE) :=
+  probsLog_eq_probs lw hS
+
+example : probsLog [some 0, none] = probs ([some 0, none].map expE) :=
+  probabilities_log_space _ (by simp [expE])
+
+/-- `effective_sample_size` as written — `log_w -= logsumexp(log_w); exp(-logsumexp(2*log_w))` on a vector
+that may contain `-inf` — is the model's ESS of the weights `exp(log_w)`. -/
+theorem ess_log_space (lw : List LogVal) (hS : 0 < lsum (lw.map expE)) :
+    essLog lw = ess (lw.map expE) :=
+  essLog_eq_ess lw hS
+
+example : essLog [some 0, none, some 0] = ess ([some 0, none, some 0].map expE) :=
+  ess_log_space _ (by simp [expE])
+
+/-- Shifting every log-weight by a constant `c` (entries `-inf` stay `-inf`) multiplies every weight by
+the positive constant `exp c`. -/
+theorem log_shift_is_scale (c : ℝ) (lw : List LogVal) :
+    (shiftE c lw).map expE = (lw.map expE).map (fun x => Real.exp c * x) ∧ 0 < Real.exp c :=
+  ⟨map_expE_shiftE c lw, Real.exp_pos c⟩
+
+example : (shiftE 1 [some 0, none]).map expE = ([some 0, none].map expE).map (fun x => Real.exp 1 * x) :=
+  (log_shift_is_scale 1 _).1
+
+/-- **The ESS does not change when all log-weights are shifted by a constant** (log-space statement,
+`-inf` entries allowed, weights not all zero). -/
+theorem ess_shift_invariant (c : ℝ) (lw : List LogVal) (hS : 0 < lsum (lw.map expE)) :
+    essLog (shiftE c lw) = essLog lw := by
+  have hS' : 0 < lsum ((shiftE c lw).map expE) := by
+    rw [map_expE_shiftE, lsum_map_mul_left]
+    exact mul_pos (Real.exp_pos c) hS
+  rw [essLog_eq_ess _ hS', essLog_eq_ess _ hS, map_expE_shiftE]
+  unfold ess
+  rw [probs_map_mul_left (Real.exp_pos c).ne']
+
+example : essLog (shiftE 5 [some 0, none, some 2]) = essLog [some 0, none, some 2] :=
+  ess_shift_invariant 5 _ (by
+    have := Real.exp_pos 2
+    simp [expE]; linarith)
+
+/-- The probabilities handed to `np.random.choice` (hence every multinomial draw) do not change when all
+log-weights are shifted by a constant. -/
+theorem probabilities_shift_invariant (c : ℝ) (lw : List LogVal) (hS : 0 < lsum (lw.map expE)) :
+    probsLog (shiftE c lw) = probsLog lw := by
+  have hS' : 0 < lsum ((shiftE c lw).map expE) := by
+    rw [map_expE_shiftE, lsum_map_mul_left]
+    exact mul_pos (Real.exp_pos c) hS
+  rw [probsLog_eq_probs _ hS', probsLog_eq_probs _ hS, map_expE_shiftE,
+    probs_map_mul_left (Real.exp_pos c).ne']
+
+example : probsLog (shiftE 2 [some 0, none]) = probsLog [some 0, none] :=
+  probabilities_shift_invariant 2 _ (by simp [expE])
 
 /-! ## rejection sampling -/
 
@@ -58,6 +149,9 @@ theorem rejection_keep_iff (w u : List K) (i : Nat) :
   · intro h; exact ⟨i, by omega, h⟩
 
 example : (1 : Nat) ∈ rejectionIndices [(1 : ℚ), 1 / 2, 0] [9 / 10, 1 / 4, 0] := by decide +kernel
+
+example : (1 : Nat) ∈ rejectionIndices [(1 : ℚ), 1 / 2, 0] [9 / 10, 1 / 4, 0] :=
+  (rejection_keep_iff _ _ 1).mpr ⟨by simp, by simp, by decide +kernel⟩
 
 /-- A sample carrying the maximum weight is accepted for every draw `u ∈ [0, 1)`
 (weights not all zero). -/
@@ -119,6 +213,9 @@ theorem rejection_indices_sorted (w u : List K) :
 
 example : rejectionIndices [(1 : ℚ), 1 / 2, 0, 1] [9 / 10, 1 / 4, 0, 0] = [0, 1, 3] := by decide +kernel
 
+example : ∀ i ∈ rejectionIndices [(1 : ℚ), 1 / 2, 0, 1] [9 / 10, 1 / 4, 0, 0], i < 4 :=
+  (rejection_indices_sorted [(1 : ℚ), 1 / 2, 0, 1] [9 / 10, 1 / 4, 0, 0]).2.1
+
 /-- Rejection sampling does not depend on the normalisation of the weights
 (a constant shift of all log-weights). -/
 theorem rejection_scale_invariant (w u : List K) (c : K) (hc : 0 < c) :
@@ -140,6 +237,15 @@ theorem rejection_scale_invariant (w u : List K) (c : K) (hc : 0 < c) :
 example : rejectionIndices ([(1 : ℚ), 1 / 2].map (fun x => 8 * x)) [1 / 2, 1 / 4] =
     rejectionIndices [(1 : ℚ), 1 / 2] [1 / 2, 1 / 4] := rejection_scale_invariant _ _ 8 (by norm_num)
 
+/-- Rejection sampling as written in the code does not change when all log-weights are shifted by a constant. -/
+theorem rejection_shift_invariant (c : ℝ) (lw : List LogVal) (us : List ℝ) (hu : ∀ u ∈ us, 0 ≤ u) :
+    rejLog (shiftE c lw) us = rejLog lw us := by
+  rw [rejection_log_space _ _ hu, rejection_log_space _ _ hu, map_expE_shiftE]
+  exact rejection_scale_invariant _ _ _ (Real.exp_pos c)
+
+example : rejLog (shiftE (-3) [some 0, none]) [1 / 2, 0] = rejLog [some 0, none] [1 / 2, 0] :=
+  rejection_shift_invariant (-3) _ _ (by intro u hu; simp at hu; rcases hu with rfl | rfl <;> norm_num)
+
 /-! ## the returned samples are the nested samples at the returned indices -/
 
 /-- Looking indices up in the nested samples only ever yields nested samples, and for indices
@@ -153,6 +259,9 @@ theorem indices_identify (nested : List α) (idx : List Nat) :
 
 example : takeIdx [10, 11, 12, 13] [3, 0, 0] = [13, 10, 10] := by decide
 
+example : (takeIdx [10, 11, 12, 13] [3, 0, 0]).length = 3 :=
+  ((indices_identify [10, 11, 12, 13] [3, 0, 0]).2 (by decide)).1
+
 /-- For rejection sampling the returned samples are exactly the nested samples whose
 acceptance test succeeded, in their original order (one sample per index, no repeats). -/
 theorem indices_identify_rejection (nested : List α) (w u : List K) :
@@ -162,6 +271,10 @@ theorem indices_identify_rejection (nested : List α) (w u : List K) :
 
 example : takeIdx [10, 11, 12] (rejectionIndices [(1 : ℚ), 0, 1 / 2] [1 / 2, 0, 1 / 4]) = [10, 12] := by
   decide +kernel
+
+example : takeIdx [10, 11, 12] (rejectionIndices [(1 : ℚ), 0, 1 / 2] [1 / 2, 0, 1 / 4]) =
+    rejMask (lmax [(1 : ℚ), 0, 1 / 2]) [(1 : ℚ), 0, 1 / 2] [1 / 2, 0, 1 / 4] [10, 11, 12] :=
+  indices_identify_rejection _ _ _
 
 /-! ## multinomial resampling -/
 
@@ -176,6 +289,10 @@ theorem multinomial_index_iff (w : List K) (hw : ∀ x ∈ w, 0 ≤ x) (hS : 0 <
 
 example : multIndex [(1 : ℚ), 2, 1] (1 / 2) = 1 := by decide +kernel
 
+example : multIndex [(1 : ℚ), 2, 1] (1 / 2) = 1 :=
+  (multinomial_index_iff [(1 : ℚ), 2, 1] (by decide +kernel) (by decide +kernel) (1 / 2)
+    (by norm_num) (by norm_num) 1).mpr ⟨by simp, by decide +kernel, by decide +kernel⟩
+
 /-- Without `u < 1` the look-up runs off the end of the table (index `N`, not a sample). -/
 theorem multinomial_index_iff_fails_without : multIndex [(1 : ℚ), 2, 1] 1 = 3 := by decide +kernel
 
@@ -188,6 +305,10 @@ theorem multinomial_interval_length (w : List K) (i : Nat) (hi : i < w.length) :
 
 example : lsum ([(1 : ℚ), 2, 1].take 2) / 4 - lsum ([(1 : ℚ), 2, 1].take 1) / 4 = 2 / 4 := by
   decide +kernel
+
+example : lsum ([(1 : ℚ), 2, 1].take 2) / lsum [(1 : ℚ), 2, 1] - lsum ([(1 : ℚ), 2, 1].take 1) / lsum [(1 : ℚ), 2, 1] =
+    [(1 : ℚ), 2, 1][1] / lsum [(1 : ℚ), 2, 1] :=
+  multinomial_interval_length [(1 : ℚ), 2, 1] 1 (by simp)
 
 /-- Every multinomial draw is a valid index, and never the index of a zero-weight sample. -/
 theorem multinomial_zero_never (w : List K) (hw : ∀ x ∈ w, 0 ≤ x) (hS : 0 < lsum w) (u : K)
@@ -202,8 +323,17 @@ theorem multinomial_zero_never (w : List K) (hw : ∀ x ∈ w, 0 ≤ x) (hS : 0 
 example : multIndex [(0 : ℚ), 1, 0, 1] 0 = 1 ∧ multIndex [(0 : ℚ), 1, 0, 1] (1 / 2) = 3 := by
   decide +kernel
 
-/-- Multinomial resampling returns exactly the requested number of draws, each a valid index
-of a sample with non-zero weight. -/
+example : ∃ hi : multIndex [(0 : ℚ), 1, 0, 1] 0 < 4, [(0 : ℚ), 1, 0, 1][multIndex [(0 : ℚ), 1, 0, 1] 0] ≠ 0 :=
+  multinomial_zero_never [(0 : ℚ), 1, 0, 1] (by decide +kernel) (by decide +kernel) 0 (by norm_num) (by norm_num)
+
+/-- Multinomial resampling returns the requested number of draws, each a valid index of a sample with
+non-zero weight.  The count part holds by construction of the model: `np.random.choice(N, size=n, p=…)`
+is modelled as one table look-up per uniform for the first `n` uniforms (`(us.take n).map …`), so
+"exactly n" is a fact about the model, not a derived one; that the real call returns `n` indices
+(and `int(ESS)` of them by default) is what the correspondence and the oracle check on every case.
+The derived content is the second part (every draw is in range and never a zero-weight sample),
+`default_count` (the default `n` is `⌊ESS⌋ ∈ [1, N]`) and `draw_multinomial` (the whole call path:
+`n` given or defaulted, samples looked up at the indices). -/
 theorem multinomial_count (w : List K) (n : Nat) (us : List K) (hn : n ≤ us.length) :
     (multinomialIndices w n us).length = n ∧
       ((∀ x ∈ w, 0 ≤ x) → 0 < lsum w → (∀ x ∈ us, 0 ≤ x ∧ x < 1) →
@@ -217,6 +347,11 @@ theorem multinomial_count (w : List K) (n : Nat) (us : List K) (hn : n ≤ us.le
     exact multinomial_zero_never w hw hS x this.1 this.2
 
 example : multinomialIndices [(1 : ℚ), 2, 1] 3 [0, 1 / 2, 7 / 8, 1 / 3] = [0, 1, 2] := by decide +kernel
+
+example : (multinomialIndices [(1 : ℚ), 2, 1] 3 [0, 1 / 2, 7 / 8, 1 / 3]).length = 3 ∧
+    ∀ i ∈ multinomialIndices [(1 : ℚ), 2, 1] 3 [0, 1 / 2, 7 / 8, 1 / 3], ∃ hi : i < 3, [(1 : ℚ), 2, 1][i] ≠ 0 :=
+  let h := multinomial_count [(1 : ℚ), 2, 1] 3 [0, 1 / 2, 7 / 8, 1 / 3] (by simp)
+  ⟨h.1, h.2 (by decide +kernel) (by decide +kernel) (by decide +kernel)⟩
 
 /-- Multinomial resampling does not depend on the normalisation of the weights. -/
 theorem multinomial_scale_invariant (w : List K) (n : Nat) (us : List K) (c : K) (hc : c ≠ 0) :
@@ -236,6 +371,9 @@ theorem ess_eq_kish (w : List K) : ess w = lsum w * lsum w / lsum (w.map (fun x 
 
 example : ess [(1 : ℚ), 1, 2] = 8 / 3 := by decide +kernel
 
+example : ess [(1 : ℚ), 1, 2] = lsum [(1 : ℚ), 1, 2] * lsum [(1 : ℚ), 1, 2] / lsum ([(1 : ℚ), 1, 2].map (fun x => x * x)) :=
+  ess_eq_kish _
+
 /-- `1 ≤ ESS ≤ N` for non-negative weights that are not all zero. -/
 theorem ess_bounds (w : List K) (hw : ∀ x ∈ w, 0 ≤ x) (hS : 0 < lsum w) :
     1 ≤ ess w ∧ ess w ≤ (w.length : K) := by
@@ -246,6 +384,9 @@ theorem ess_bounds (w : List K) (hw : ∀ x ∈ w, 0 ≤ x) (hS : 0 < lsum w) :
   · rw [div_le_iff₀ hQ]; exact sq_sum_le_length_mul_sumSq w
 
 example : 1 ≤ ess [(1 : ℚ), 0, 2] ∧ ess [(1 : ℚ), 0, 2] ≤ 3 := by decide +kernel
+
+example : 1 ≤ ess [(1 : ℚ), 0, 2] ∧ ess [(1 : ℚ), 0, 2] ≤ (([(1 : ℚ), 0, 2].length : ℕ) : ℚ) :=
+  ess_bounds [(1 : ℚ), 0, 2] (by decide +kernel) (by decide +kernel)
 
 /-- The lower bound needs non-negative weights (which `exp(log_w)` always are). -/
 theorem ess_bounds_fails_without : ess [(2 : ℚ), -1] < 1 := by decide +kernel
@@ -271,6 +412,8 @@ theorem effectiveN_eq (w : List K) : effectiveN w = if w = [] then 0 else ess w 
 
 example : effectiveN ([] : List ℚ) = 0 ∧ effectiveN [(1 : ℚ), 1] = 2 := by decide +kernel
 
+example : effectiveN [(1 : ℚ), 1] = if [(1 : ℚ), 1] = [] then 0 else ess [(1 : ℚ), 1] := effectiveN_eq _
+
 /-- The default number of multinomial draws is the integer part of the ESS, and lies in `[1, N]`. -/
 theorem default_count (w : List ℚ) (hw : ∀ x ∈ w, 0 ≤ x) (hS : 0 < lsum w) :
     ((defaultN w : ℚ) ≤ ess w ∧ ess w < (defaultN w : ℚ) + 1) ∧ 1 ≤ defaultN w ∧ defaultN w ≤ w.length := by
@@ -293,6 +436,9 @@ theorem default_count (w : List ℚ) (hw : ∀ x ∈ w, 0 ≤ x) (hS : 0 < lsum 
 
 example : defaultN [(1 : ℚ), 1, 2] = 2 := by decide +kernel
 
+example : 1 ≤ defaultN [(1 : ℚ), 1, 2] ∧ defaultN [(1 : ℚ), 1, 2] ≤ 3 :=
+  (default_count [(1 : ℚ), 1, 2] (by decide +kernel) (by decide +kernel)).2
+
 /-! ## the whole function -/
 
 /-- `draw_posterior_samples(method="rejection_sampling")` on matching non-empty inputs returns the
@@ -309,6 +455,11 @@ theorem draw_rejection (nested : List α) (w u : List ℚ) (n : Option Nat)
 
 example : (drawPosterior "rejection_sampling" none [10, 11, 12] [1, 1 / 2, 0] [1 / 2, 1 / 2, 0]).toOption =
     some ([0], [10]) := by decide +kernel
+
+example : drawPosterior "rejection_sampling" (some 7) [10, 11, 12] [1, 1 / 2, 0] [1 / 2, 1 / 2, 0] =
+    .ok (rejectionIndices [(1 : ℚ), 1 / 2, 0] [1 / 2, 1 / 2, 0],
+      takeIdx [10, 11, 12] (rejectionIndices [(1 : ℚ), 1 / 2, 0] [1 / 2, 1 / 2, 0])) :=
+  draw_rejection [10, 11, 12] [1, 1 / 2, 0] [1 / 2, 1 / 2, 0] (some 7) (by simp) (by simp) (by simp)
 
 /-- `draw_posterior_samples` with `method="multinomial_resampling"` (or its alias
 `"importance_sampling"`) returns exactly `n` samples — `⌊ESS⌋` of them when `n` is not given —
@@ -343,6 +494,13 @@ theorem draw_multinomial (method : String)
 example : (drawPosterior "importance_sampling" none [10, 11, 12] [1, 1, 2] [0, 1 / 2, 3 / 4]).toOption =
     some ([0, 2], [10, 12]) := by decide +kernel
 
+example : ∃ idx s, drawPosterior "importance_sampling" none [10, 11, 12] [1, 1, 2] [0, 1 / 2, 3 / 4] = .ok (idx, s) ∧
+    idx.length = defaultN [1, 1, 2] ∧ s.length = idx.length := by
+  obtain ⟨idx, s, h, hc, hl, _⟩ := draw_multinomial "importance_sampling" (Or.inr rfl) [10, 11, 12]
+    [1, 1, 2] [0, 1 / 2, 3 / 4] none (by simp) (by simp) (by decide +kernel) (by decide +kernel)
+    (by decide +kernel) (by decide +kernel)
+  exact ⟨idx, s, h, hc, hl⟩
+
 /-- An unknown method string is rejected. -/
 theorem draw_unknown_method (nested : List α) (w u : List ℚ) (n : Option Nat) :
     drawPosterior "nested_sampling" n nested w u = .error .valueErr := by
@@ -350,5 +508,8 @@ theorem draw_unknown_method (nested : List α) (w u : List ℚ) (n : Option Nat)
   simp only [drawPosterior, h1]
 
 example : (drawPosterior "nested_sampling" none [1] [1] [0]).toOption = none := by decide +kernel
+
+example : drawPosterior "nested_sampling" (some 3) [1, 2] [1, 1] [0, 0] = .error .valueErr :=
+  draw_unknown_method _ _ _ _
 
 end NessaiVerif.C16
